@@ -13,7 +13,7 @@ from vlib.conds.c05 import plain_fa
 from pyformlang.regular_expression import PythonRegex
 
 # strings the languages are compared on: every string of length <= 2 over CH2, length 3 over CH3
-CH2 = list("abc0-+ .*|()?\\[") + ["\t", "_", "A", "^", ","]
+CH2 = list("abc0-+ .*|()?\\[") + ["\t", "_", "A", "^", ",", "\x0c", "\r", "\x0b", "~", "{"]
 CH3 = list("ab0-")
 TEST_STRINGS = [""] + CH2 + ["".join(x) for x in itertools.product(CH2, repeat=2)] + \
                ["".join(x) for x in itertools.product(CH3, repeat=3)]
@@ -75,8 +75,8 @@ def _run(cond, raw, p, realize=True):
     return chx.judge("C07", cond, raw, p, obs, _oracle)
 
 
-TOK_Q = ["a", "b", "|", "(", ")", "*", "+", "?", "{2}", "{1,2}", "[ab]", "[a-c]", "\\d", "\\."]
-TOK_T = ["a", "b", "-", ".", "|", "(", ")", "*", "+", "?", "{0}", "{2}", "{1,2}", "{2,2}", "[ab]", "[^a]",
+TOK_Q = ["a", "b", "|", "(", ")", "*", "+", "?", "{2}", "{1,2}", "[ab]", "[a-c]", "\\d", "\\.", "{0,2}"]
+TOK_T = ["a", "b", "-", ".", "|", "(", ")", "*", "+", "?", "{0}", "{2}", "{1,2}", "{2,2}", "{0,2}", "[ab]", "[^a]",
          "[a-c]", "[a\\-c]", "[+*()?.|]", "\\d", "\\s", "\\w", "\\.", "\\*", "\\+", "\\?", "\\|", "\\(", "\\[",
          "\\\\"]
 TOK4 = ["a", "b", "|", "(", ")", "*", "+", "?", "{2}", "[ab]"]
@@ -112,6 +112,21 @@ def c07_tokens4(toks: Tuple[int, int, int, int]) -> bool:
     return _run("c07_tokens4", raw, p)
 
 
+TOK_D = [".", "a", "[^a]", "\\s", "\\w", "*", "|", "[^\\d]"]
+
+
+def c07_wide(toks: Tuple[int, int], n: int) -> bool:
+    """
+    pre: 1 <= n <= 2
+    pre: all(0 <= toks[i] < 8 and (i < n or toks[i] == 0) for i in range(2))
+    pre: pinned(n=n, t0=toks[0])
+    post: _
+    """
+    raw = (toks, n)
+    p = join_tokens(TOK_D, toks, n)
+    return _run("c07_wide", raw, p)
+
+
 ALPHA_S = "ab|*+?()[]^-{}1,\\."
 
 
@@ -134,6 +149,10 @@ def _sh_tok3(tier):
     if tier == "quick":
         return product_pins(n=[3], t0=list(range(nt))) + [{"n": 2}, {"n": 1}, {"n": 0}]
     return product_pins(n=[3], t0=list(range(nt)), t1=list(range(0, nt, 1)))[::1] + [{"n": 2}, {"n": 1}, {"n": 0}]
+
+
+def _sh_wide(tier):
+    return [{"n": 1}] + product_pins(n=[2], t0=list(range(8)))
 
 
 def _sh_tok4(tier):
@@ -162,10 +181,15 @@ ASSUME = ["patterns that compile but use constructs outside the documented subse
 
 CONDS = [
     Cond("C07", c07_tokens3, _sh_tok3,
-         {"quick": "0-3 tokens from {a,b,|,(,),*,+,?,{2},{1,2},[ab],[a-c],\\d,\\.}",
+         {"quick": "0-3 tokens from {a,b,|,(,),*,+,?,{2},{1,2},{0,2},[ab],[a-c],\\d,\\.}",
           "thorough": "0-3 tokens from the 30-token table incl. '.', [^a], \\w, \\s, {0}, {2,2}, [a\\-c], "
                       "[+*()?.|], escaped metacharacters"},
          FUNCS, RULE, assumptions=ASSUME, per_path_timeout=120),
+    Cond("C07", c07_wide, _sh_wide,
+         {"quick": "1-2 tokens from {., a, [^a], \\s, \\w, *, |, [^\\d]}: the constructs that expand to the whole "
+                   "printable alphabet (compared on strings containing \\t \\r \\x0b \\x0c too)",
+          "thorough": "same"},
+         FUNCS, RULE, assumptions=ASSUME, per_path_timeout=240),
     Cond("C07", c07_tokens4, _sh_tok4,
          {"quick": "4 tokens from {a,b,|,(,),*,+,?,{2},[ab]}: first in {a,(,[ab]}, second in {a,|,),*,{2}}",
           "thorough": "all 10^4 four-token patterns"},
